@@ -83,8 +83,24 @@ func runHistory(r *core.Run, cid string, L int) {
 			m.badAck()
 		case x < 95:
 			m.keeperWriteAck()
-		case x < 98:
+		case x < 97:
 			m.ackUnderChangedRegistry()
+		case x < 98:
+			// governance replaces the client of one path by another type and back: stored acknowledgements and commitments
+			// are not the client's to touch
+			a, b := s.RandNodePair()
+			before := map[string]core.KV{"acks/": a.DumpPrefix(a.Ctx(), "xibc", []byte("acks/")), "commitments/": a.DumpPrefix(a.Ctx(), "xibc", []byte("commitments/")), "receipts/": a.DumpPrefix(a.Ctx(), "xibc", []byte("receipts/"))}
+			if err := s.ToggleRoundTrip(a, b); err != nil {
+				r.Inconclusive("%s: client toggle failed: %v", cid, err)
+				return
+			}
+			r.Count("client_toggles_round_trip", 1)
+			r.Eval(fmt.Sprintf("%s/%d/toggle", cid, len(s.Log)), true)
+			for pfx, kv := range before {
+				if d := core.Diff("xibc", kv, a.DumpPrefix(a.Ctx(), "xibc", []byte(pfx))); len(d) != 0 {
+					r.Violation(cid, "toggle/packet-state-changed-by-a-client-toggle/"+pfx[:len(pfx)-1], map[string]interface{}{"chain": a.Name, "client": b.Name, "diff": core.TrimDiff(d, 8)})
+				}
+			}
 		default:
 			s.W.Roll(s.W.Nodes[rng.Intn(len(s.W.Nodes))])
 		}
